@@ -4,6 +4,7 @@ CONSTANTS
   Cores <- CoresQ
   Epochs <- EpochsQ
   MaxTuples = 3
+  MaxFormTuples = 3
   Pos <- Positions
   DevAccumulate = TRUE
 INVARIANTS TypeOK OwnEpochInv
